@@ -27,6 +27,7 @@ import (
 	"istio.io/istio/pilot/pkg/networking/core"
 	pxds "istio.io/istio/pilot/pkg/xds"
 	v3 "istio.io/istio/pilot/pkg/xds/v3"
+	"istio.io/istio/pkg/config"
 	"istio.io/istio/pkg/util/sets"
 )
 
@@ -170,7 +171,7 @@ func raceF8(seconds, clients int) {
 	wg.Add(1)
 	go func() {
 		defer wg.Done()
-		ww := &writersWorld{keysWorld: w, conns: map[string]*wconn{}}
+		ww := &writersWorld{keysWorld: w, conns: map[string]*wconn{}, deleted: map[string]config.Config{}}
 		for n := 1; !stop.Load(); n++ {
 			ww.changeConfig("dr-a", n)
 			time.Sleep(2500 * time.Microsecond)
